@@ -130,7 +130,12 @@ fn autonat_server() -> SimResult {
                         5 => format!("/ip4/{my_ip}/tcp/{lp}/ip4/9.9.9.9/tcp/2"),
                         6 => format!("/ip4/9.9.9.9/udp/4/ip6/2001:db8::1/tcp/{lp}"),
                         7 => ["/dns4/example.com/tcp/80".to_string(), format!("/ip4/{my_ip}/tcp/{lp}/dns4/x.example.org"), format!("/dns4/a.example/tcp/1/ip4/{}/tcp/{}", other.ip, other.node.listen_port)][choose(3)].clone(),
-                        8 => format!("/ip4/{}/tcp/{}/p2p/{}/p2p-circuit/p2p/{}", other.ip, other.node.listen_port, other.node.peer, me.node.peer),
+                        8 => [
+                            format!("/ip4/{}/tcp/{}/p2p/{}/p2p-circuit/p2p/{}", other.ip, other.node.listen_port, other.node.peer, me.node.peer),
+                            format!("/ip4/{my_ip}/tcp/{lp}/p2p-circuit/p2p/{}", me.node.peer),
+                            format!("/ip4/{my_ip}/tcp/{lp}/p2p-circuit"),
+                        ][choose(3)]
+                        .clone(),
                         9 => format!("/ip4/{my_ip}/tcp/{lp}/p2p/{}", other.node.peer),
                         _ => format!("/ip4/{my_ip}/tcp/{lp}/p2p/{}/tcp/7", me.node.peer),
                     };
